@@ -103,13 +103,18 @@ REGISTRY = {
                             "input empty/non-empty): terminator table incl. zero-size chunks (R03.1/R03.3), finished <=> terminator "
                             "written (R03.2), chunk framing with one n for size line, data slice and counter (R03.4), refusal table "
                             "(R03.5), readiness origin (R03.6)."),
+    "C16": dict(modules=["rules_c16"], min_instances=6, trusted_base=TB,
+                explanation="Iterator-adaptor dataflow: the term built by the effective header iterator is walked from the "
+                            "caller-added list outwards; only total adaptors may occur on that path (R16.1, with a positive "
+                            "fixture); set_header pushes exactly when both conversions succeed (R16.2); order (R16.3 = R02.6); "
+                            "capacity constant (R16.4)."),
 }
 
 _PENDING = "check not built yet in this round (planned static rules: DESIGN.md section 4)"
 NOT_APPLICABLE = {
     "C01": _PENDING, 
     
-    "C12": _PENDING, "C16": _PENDING,
+    "C12": _PENDING, 
     "C18": _PENDING, 
     "C19": "quantitative liveness claim over two run-time lengths and hex-digit counts: no clause is visible in "
            "the shape of the code without evaluating that arithmetic (a solver or execution would be another "
@@ -117,6 +122,13 @@ NOT_APPLICABLE = {
 }
 
 MANIFEST_META = {
+    "C16": dict(
+        technique="iterator-adaptor dataflow over the abstract value of the effective header iterator + event rules",
+        design_ref="DESIGN.md section 4 C16",
+        level_text="Structural: no partial adaptor (filter, take_while, ...) lies between the caller-added list and the head "
+                   "writer; additions are unconditional after validation, ahead of the originals.",
+        level_note="Trusted: rustc MIR; std iterator adaptor semantics (total vs partial) by name; more than MAX_EXTRA_HEADERS "
+                   "additions are outside the quantifier."),
     "C03": dict(
         technique="emission-template analysis over MIR (decoded format_args + abstract interpretation with order reasoning)",
         design_ref="DESIGN.md section 4 C03",
